@@ -1,12 +1,218 @@
-"""Kani back end: runs the property's harnesses on the spliced scratch copy (stub until harnesses exist)."""
-import os, sys
+"""Kani back end.  Builds a scratch copy of /repo (unchanged sources) with the harness fragments of
+/verif/kani/*.rs appended to the corresponding src files (in-crate child modules, so they can see
+private items), and runs `cargo kani` per harness.
 
-# property -> list of dict(name, tier, bound(None=complete), timeout)
-HARNESSES = {}
+Harness kinds:
+  complete : loop-free or constant-bounded over the FULL input domain with unwinding assertions on -> a proof
+  bounded  : stated bound on an input length -> labelled bounded, never counted as proved
+"""
+import hashlib, json, os, re, shutil, subprocess, sys, tempfile, time
+from concurrent.futures import ThreadPoolExecutor
+sys.path.insert(0, os.path.dirname(os.path.abspath(__file__)))
+V = os.path.dirname(os.path.dirname(os.path.abspath(__file__)))
+REPO = os.environ.get('VERIF_REPO', '/repo')
+CACHE = os.path.join(V, '.cache')
+KTARGET = os.path.join(CACHE, 'kani-target')
+
+# fragment file -> source file it is appended to
+FRAGMENTS = {
+    'util.rs': 'util.rs',
+    'aead.rs': 'aead.rs',
+    'x25519.rs': 'dhkex/x25519.rs',
+    'nistp.rs': 'dhkex/ecdh_nistp.rs',
+    'kem.rs': 'kem.rs',
+    'setup.rs': 'setup.rs',
+    'lib.rs': 'lib.rs',
+}
+
+def H(name, props, tier='quick', bound=None, timeout=600, features='', should_panic=False, extra=()):
+    return {'name': name, 'props': props, 'tier': tier, 'bound': bound, 'timeout': timeout, 'features': features, 'extra': list(extra)}
+
+# name must be unique; `props` = properties whose check runs the harness
+ALL = [
+    H('write_u16_be_full', ['C02', 'C04']),
+    H('write_u64_be_full', ['C02', 'C04']),
+    H('write_u64_be_wrong_len_panics', ['C13'], tier='thorough'),
+    H('suite_ids_table_x25519', ['C02', 'C07']),
+    H('suite_ids_table_p256', ['C02', 'C07']),
+    H('suite_ids_table_p384', ['C02', 'C07'], tier='thorough', features='p384,p521'),
+    H('suite_ids_table_p521', ['C02', 'C07'], tier='thorough', features='p384,p521'),
+    H('kdf_ids_table', ['C02', 'C07', 'C11']),
+    H('increment_seq_full', ['C04', 'C05']),
+    H('seq_default_is_zero', ['C04', 'C01']),
+    H('mix_nonce_full_aes128', ['C04', 'C02']),
+    H('mix_nonce_full_aes256', ['C04'], tier='thorough'),
+    H('mix_nonce_full_chacha', ['C04'], tier='thorough'),
+    H('seal_state_machine_model', ['C04'], tier='thorough'),
+    H('open_state_machine_model', ['C05'], tier='thorough'),
+    H('seal_alloc_bounded', ['C14', 'C01', 'C13'], bound='plaintext length <= 4, model AEAD'),
+    H('write_exact_tag', ['C12']),
+    H('write_exact_tag_wrong_len_panics', ['C12'], tier='thorough'),
+    H('export_only_seal_panics', ['C11'], tier='thorough', timeout=1500),
+    H('export_only_open_panics', ['C11'], tier='thorough', timeout=1500),
+    H('drop_wipes_key_aes128', ['C16']),
+    H('drop_wipes_key_aes256', ['C16'], tier='thorough'),
+    H('drop_wipes_key_chacha', ['C16'], tier='thorough'),
+    H('drop_wipes_nonce_aes128', ['C16']),
+    H('drop_wipes_nonce_aes256', ['C16'], tier='thorough'),
+    H('drop_wipes_nonce_chacha', ['C16'], tier='thorough'),
+    H('drop_wipes_ctx_fields', ['C16']),
+    H('drop_wipes_nonce_exportonly', ['C16'], tier='thorough'),
+    H('drop_wipes_shared_secret', ['C16']),
+    H('drop_wipes_exporter_sha256', ['C16']),
+    H('drop_wipes_exporter_sha384', ['C16'], tier='thorough'),
+    H('drop_wipes_exporter_sha512', ['C16'], tier='thorough'),
+    H('gen_keypair_depends_only_on_rng', ['C18', 'C03']),
+    H('aead_ids_and_sizes_table', ['C02', 'C12']),
+    H('x25519_dh_zero_check', ['C10', 'C03']),
+    H('write_exact_x25519', ['C12']),
+    H('write_exact_x25519_wrong_len_panics', ['C12'], tier='thorough'),
+    H('nist_sk_from_bytes_p256', ['C09', 'C12'], timeout=1500),
+]
+
+
+def harnesses_for(pid, tier):
+    return [h for h in ALL if pid in h['props'] and (tier == 'thorough' or h['tier'] == 'quick')]
+
+
+def src_hash():
+    h = hashlib.sha256()
+    files = [os.path.join(REPO, 'Cargo.toml'), os.path.join(REPO, 'Cargo.lock')]
+    for root in (os.path.join(REPO, 'src'), os.path.join(V, 'kani')):
+        for d, _, fs in os.walk(root):
+            for f in fs:
+                files.append(os.path.join(d, f))
+    files.append(os.path.abspath(__file__))
+    for f in sorted(files):
+        h.update(f.encode())
+        try:
+            h.update(open(f, 'rb').read())
+        except OSError:
+            pass
+    return h.hexdigest()[:24]
+
+
+def build_scratch(out):
+    os.makedirs(out, exist_ok=True)
+    for f in ('Cargo.toml', 'Cargo.lock'):
+        shutil.copy(os.path.join(REPO, f), os.path.join(out, f))
+    for d in ('src', 'benches', 'examples'):
+        if os.path.exists(os.path.join(out, d)):
+            shutil.rmtree(os.path.join(out, d))
+        if os.path.exists(os.path.join(REPO, d)):
+            shutil.copytree(os.path.join(REPO, d), os.path.join(out, d))
+    os.makedirs(os.path.join(out, '.cargo'), exist_ok=True)
+    open(os.path.join(out, '.cargo', 'config.toml'), 'w').write('[net]\noffline = true\n')
+    for frag, rel in FRAGMENTS.items():
+        fp = os.path.join(V, 'kani', frag)
+        if not os.path.exists(fp):
+            continue
+        p = os.path.join(out, 'src', rel)
+        if not os.path.exists(p):
+            raise RuntimeError('source file missing for kani fragment: src/%s' % rel)
+        txt = open(p).read()
+        if rel == 'lib.rs':
+            txt = '#![cfg_attr(kani, feature(stmt_expr_attributes, proc_macro_hygiene))]\n' + txt if False else txt
+        open(p, 'w').write(txt + '\n' + open(fp).read())
+
+
+def run_one(scratch, h):
+    cmd = ['cargo', 'kani', '--target-dir', KTARGET, '-Z', 'stubbing', '-Z', 'function-contracts',
+           '--harness', h['name'], '--output-format', 'terse']
+    if h['features']:
+        cmd += ['--features', h['features']]
+    cmd += h['extra']
+    env = dict(os.environ, CARGO_NET_OFFLINE='true')
+    t0 = time.time()
+    try:
+        p = subprocess.run(cmd, cwd=scratch, capture_output=True, text=True, timeout=h['timeout'], env=env)
+        out = p.stdout + '\n' + p.stderr
+        rc = p.returncode
+    except subprocess.TimeoutExpired as e:
+        out = (e.stdout or b'').decode() if isinstance(e.stdout, bytes) else (e.stdout or '')
+        out += '\nTIMEOUT after %ds' % h['timeout']
+        rc = 124
+    dt = time.time() - t0
+    res = {'name': h['name'], 'time_s': round(dt, 1), 'bound': h['bound'], 'complete': h['bound'] is None, 'rc': rc}
+    if 'VERIFICATION:- SUCCESSFUL' in out and rc == 0:
+        res['ok'] = True
+        # vacuity: a cover that is unsatisfiable means the assumptions exclude everything
+        if re.search(r'\*\* 0 of \d+ cover properties satisfied', out) and 'should_panic' not in out:
+            res['ok'] = False; res['undecided'] = True; res['detail'] = 'vacuous harness: no cover property satisfiable'
+    elif 'VERIFICATION:- FAILED' in out:
+        res['ok'] = False
+        fails = re.findall(r'Failed Checks: ([^\n]*)', out)
+        res['detail'] = '; '.join(fails[:6]) or 'verification failed'
+        if re.search(r'unwinding assertion', out):
+            res['undecided'] = True
+            res['detail'] = 'unwinding assertion failed (bound too small): ' + res['detail']
+        res['log'] = out[-6000:]
+    else:
+        res['ok'] = False
+        res['undecided'] = True
+        res['detail'] = 'kani did not complete: rc=%s %s' % (rc, '\n'.join(l for l in out.splitlines() if l.startswith('error') or ' --> ' in l)[:1500] or out[-800:])
+    return res
 
 
 def run_for_property(pid, tier, seed):
-    hs = [h for h in HARNESSES.get(pid, []) if tier == 'thorough' or h.get('tier', 'quick') == 'quick']
+    hs = harnesses_for(pid, tier)
     if not hs:
         return {'status': 'ok', 'harnesses': [], 'counterexamples': {}}
-    raise NotImplementedError
+    key = src_hash()
+    rdir = os.path.join(CACHE, 'results')
+    os.makedirs(rdir, exist_ok=True)
+    cache_p = os.path.join(rdir, 'kani-%s.json' % key)
+    cache = {}
+    if os.path.exists(cache_p) and not os.environ.get('VERIF_NOCACHE'):
+        try:
+            cache = json.load(open(cache_p))
+        except Exception:
+            cache = {}
+    todo = [h for h in hs if h['name'] not in cache]
+    if todo:
+        scratch = tempfile.mkdtemp(prefix='hpke_kani_')
+        try:
+            try:
+                build_scratch(scratch)
+            except RuntimeError as e:
+                return {'status': 'undecided', 'reason': str(e)}
+            # first harness alone (builds the dependency graph once), the rest in parallel
+            first = run_one(scratch, todo[0])
+            cache[first['name']] = first
+            rest = todo[1:]
+            if rest:
+                with ThreadPoolExecutor(max_workers=6) as ex:
+                    for r in ex.map(lambda h: run_one(scratch, h), rest):
+                        cache[r['name']] = r
+            # re-read to merge with concurrent writers
+            try:
+                old = json.load(open(cache_p))
+                old.update(cache); cache = old
+            except Exception:
+                pass
+            json.dump(cache, open(cache_p, 'w'))
+        finally:
+            shutil.rmtree(scratch, ignore_errors=True)
+    out = []
+    cex = {}
+    for h in hs:
+        r = dict(cache[h['name']])
+        out.append(r)
+        if not r['ok'] and not r.get('undecided'):
+            cex['kani %s' % h['name']] = 'kani harness %s FAILED: %s\n%s' % (h['name'], r.get('detail'), r.get('log', '')[-3000:])
+    return {'status': 'ok', 'harnesses': out, 'counterexamples': cex}
+
+
+if __name__ == '__main__':
+    # python3 tools/kani_run.py <harness>...   (debug helper: runs in a kept scratch dir)
+    d = os.environ.get('KANI_SCRATCH') or tempfile.mkdtemp(prefix='hpke_kani_')
+    build_scratch(d)
+    names = sys.argv[1:]
+    for h in ALL:
+        if h['name'] in names or not names:
+            r = run_one(d, h)
+            print(json.dumps({k: v for k, v in r.items() if k != 'log'}))
+            if not r['ok']:
+                print(r.get('log', '')[-3000:])
+    if not os.environ.get('KANI_SCRATCH'):
+        shutil.rmtree(d, ignore_errors=True)
